@@ -70,17 +70,25 @@ def gen_plan(seed, tier="quick", variant=None):
                     "holes": kind == "wrapper" and rng.random() < 0.3})
         if log[-1]["magic"] == 1 and not log[-1]["nested"] and random.Random(seed * 31 + len(log)).random() < 0.3:
             log[-1]["attrs"] = 8  # timestamp type = log append time
-    big = rng.random() < (0.1 if thorough else 0.03) and variant in ("faulty", "retry", "clean", "recovery")
+        if kind == "wrapper" and not log[-1]["nested"] and log[-1]["n"] > 1 and random.Random(seed * 37 + len(log)).random() < 0.3:
+            log[-1]["members"] = random.Random(seed * 41 + len(log)).choice([2, 2, 3])  # multi-member gzip stream
+    big = rng.random() < (0.1 if thorough else 0.05) and variant in ("faulty", "retry", "clean", "recovery")
     buf = rng.choice([64, 128, 256, 1024, 4096, 65536])
     if big:
         # growth across 2^20: sixteen-fold up to 1 MiB, then doubling
-        buf = rng.choice([2 ** 16, 2 ** 19, 2 ** 20])
-        log.append({"kind": "plain", "magic": rng.choice([0, 1]), "n": 1, "gap": 0, "size": rng.choice([2 ** 20 + 5, 3 * 2 ** 20, 2 ** 22 + 1]),
+        buf = rng.choice([2 ** 16, 2 ** 19, 2 ** 20, 3 * 2 ** 19, 2 ** 21])  # (the last two start in the doubling regime)
+        log.append({"kind": "plain", "magic": rng.choice([0, 1]), "n": 1, "gap": 0, "size": rng.choice([2 ** 20 + 5, 3 * 2 ** 20, 2 ** 22 + 1, 7 * 2 ** 18, 5 * 2 ** 19 - 100]),
                     "nullkey": False, "nullval": False, "nested": False, "holes": False})
         log.append({"kind": "plain", "magic": 0, "n": 2, "gap": 0, "size": 10, "nullkey": False, "nullval": False, "nested": False, "holes": False})
     maxbuf = rng.choice([None, None, buf, buf * 4, buf * 16, 2 ** 21])
     if big:
-        maxbuf = rng.choice([None, 2 ** 21, 2 ** 22, 2 ** 23, 2 ** 24])
+        maxbuf = rng.choice([None, 2 ** 21, 2 ** 22, 2 ** 23, 2 ** 24, 3 * 2 ** 20, 5 * 2 ** 19, 6 * 2 ** 20])  # also limits the steps do not hit exactly
+    if big and random.Random(seed * 53 + 1).random() < 0.4:
+        # doubling regime with a limit the doubling would overshoot: the step must be clamped to the limit, not refused
+        r5 = random.Random(seed * 53 + 2)
+        buf, maxbuf, size = r5.choice([(3 * 2 ** 19, 2 ** 21, 7 * 2 ** 18), (3 * 2 ** 19, 5 * 2 ** 19, 2 ** 21 + 1000), (2 ** 21, 3 * 2 ** 20, 5 * 2 ** 19),
+                                       (2 ** 21, 7 * 2 ** 19, 3 * 2 ** 20)])
+        log[-2]["size"] = size - 100
     if maxbuf is not None and maxbuf < buf:
         maxbuf = buf
     timeout_ms = rng.choice([400, 1000, 5000])
@@ -211,7 +219,39 @@ def gen_plan(seed, tier="quick", variant=None):
         ops.append({"t": round(t1 + 0.1 + rng.random() * 0.3, 6), "op": "spawn" if ops[0]["op"] == "kill" else "start", "start": "committed", "start_rel": 0})
         proc = []
         faults = [f for f in faults if f.get("api") not in (8, 9) and f.get("act") != "advance_log_start" and f.get("kind") != "corrupt"][:1]
-    if variant == "stop" and rng.random() < 0.3:
+    sub = rng.random()
+    if variant == "commit" and 0.25 <= sub < 0.5:
+        # shutdown() (and maybe stop() right after it) behind a commit that is in flight and is answered late - with
+        # success, with an error that ends the commit for good, or with one that is retried
+        cons.update(every_n=rng.choice([1, 2]), every_ms=0, retry_init=0.05, max_attempts=rng.choice([0, 2]))
+        cfg["precommit"] = None
+        cfg["start"] = "earliest"
+        log[:] = [{"kind": "plain", "magic": rng.choice([0, 1]), "n": rng.randint(4, 9), "gap": 0, "size": 5, "nullkey": False, "nullval": False,
+                   "nested": False, "holes": False}]
+        k = rng.randint(0, 2)
+        how = rng.choice(["ok", "fatal", "fatal", "retriable"])
+        f = {"api": 8, "node": None, "nth": k, "act": "delay" if how == "ok" else "error", "delay": round(rng.choice([0.1, 0.3]), 6)}
+        if how == "fatal":
+            f["code"] = rng.choice([22, 25])
+        elif how == "retriable":
+            f.update(code=rng.choice([14, 15, 16]), count=rng.choice([1, 3]))
+        faults = [f]
+        ops = [o for o in ops if o["op"] == "append"][:1]
+        ops.append({"op": "shutdown", "on": ["commit", k], "delay": rng.choice([0.001, 0.02])})
+        if rng.random() < 0.5:
+            ops.append({"op": "stop", "on": ["commit", k], "delay": rng.choice([0.03, 0.06])})
+        if rng.random() < 0.5:
+            ops.append({"t": round(1.5 + rng.random(), 6), "op": "start", "start": rng.choice(["committed", "earliest"]), "start_rel": 0})
+        proc = []
+    if variant == "stop" and 0.3 <= sub < 0.5:
+        # stop() while the very first request is still bootstrapping / discovering versions / loading metadata
+        cfg["lat"] = [0.0005, rng.choice([0.002, 0.01])]
+        ops = [o for o in ops if o["op"] == "append"][:1]
+        ops.append({"t": rng.choice([0.0002, 0.0008, 0.002, 0.005, 0.012, 0.03]), "op": "stop"})
+        if rng.random() < 0.6:
+            ops.append({"t": round(0.5 + rng.random(), 6), "op": "start", "start": rng.choice(["earliest", "num", "committed" if group else "earliest"]), "start_rel": 0})
+        faults = faults[:1]
+    if variant == "stop" and sub < 0.3:
         # stop() while an asynchronous processor call is pending and later blocks of the same fetch are queued behind it
         cons.update(group=True, every_n=rng.choice([1, 1, 2, 3]), every_ms=rng.choice([0, 0, 1000]), buffer_size=65536, max_buffer_size=None, fetch_size_bytes=1)
         cfg["precommit"] = None
@@ -220,7 +260,8 @@ def gen_plan(seed, tier="quick", variant=None):
                    "nested": False, "holes": False}]
         k = rng.randint(1, 3)
         proc = [{"n": k, "mode": rng.choice(["async", "slow"]), "delay": 0.2}]
-        ops = [{"op": "stop", "on": ["proc", k, "pending"], "delay": rng.choice([0.001, 0.05])}]
+        cons["fetch_max_wait_time"] = rng.choice([10, 50])  # so that the next reply arrives (and is parked) while the call is pending
+        ops = [{"op": rng.choice(["stop", "stop", "stop", "shutdown"]), "on": ["proc", k, "pending"], "delay": rng.choice([0.001, 0.05, 0.12, 0.18])}]
         if rng.random() < 0.7:
             ops.append({"t": round(1.0 + rng.random(), 6), "op": "start", "start": rng.choice(["committed", "committed", "num"]), "start_rel": 0})
             if rng.random() < 0.5:
@@ -305,6 +346,7 @@ def build_log(part, plan, rng):
                 part.entries[-1].rel0 = rng.choice([0, 1, 4])
             if raw is None:
                 part.entries[-1].attrs = seg.get("attrs", 0)
+                part.entries[-1].members = seg.get("members", 1)
         else:
             n0 = len(part.entries)
             part.append_prebuilt(msgs, seg["magic"], False)
@@ -514,6 +556,7 @@ def _run(w, plan):
                         oor_seq = e["logseq"]
                         break
                 floor = base + cfg["precommit"] if cfg.get("precommit") is not None else -1  # an earlier owner's progress
+                floor = max(floor, part.log_start - 1)  # (and what retention has removed from the log is owed to nobody)
                 rec["bad_below"] = sorted(set(o for ss in inc.sessions[first:] for p in ss["procs"] if oor_seq < p["seq"] < horizon
                                               for o in p["offsets"] if floor < o <= pl[0].offset and o not in okset))
             if s["stopped"]:
@@ -723,6 +766,7 @@ def _run(w, plan):
                 s["ended_by_kill"] = True
                 s["stopped"] = True
                 s["stop_seq"] = len(sim.log)
+                s["stop_t"] = sim.now
             net.fault("process_kill")
             w.reactors[inc.pid].kill()
             net.kill_pid(inc.pid)
@@ -1175,6 +1219,23 @@ def _check_c13(w, res, inc, s, cc):
         late = [x for x in w.reactors[inc.pid].timer_log if x[0] > s["stop_seq"] and (nxt is None or x[0] < nxt) and x[3].startswith("consumer.py")]
         if late:
             res.violate("C13", "C13:timer-created-after-stop:%s" % late[0][4], "%d timers created by consumer.py after stop returned" % len(late))
+        # ... and nothing of the consumer's goes onto the wire any more: a fetch, offset lookup or commit whose cancellation
+        # was swallowed somewhere below would be written after stop() returned (the process runs nothing but this consumer)
+        import struct as _st
+        from .world import client_frames
+        t_stop = s.get("stop_t", w.sim.now)
+        t_next = inc.sessions[idx + 1]["t"] if idx + 1 < len(inc.sessions) else None
+        for conn in w.net.conns:
+            if conn.pid != inc.pid:
+                continue
+            for frame, t in client_frames(conn):
+                if len(frame) < 2 or not (t > t_stop + 1e-12 and (t_next is None or t < t_next - 1e-12)):
+                    continue
+                key = _st.unpack(">h", frame[:2])[0]
+                if key in (kwire.FETCH, kwire.LIST_OFFSETS, kwire.OFFSET_FETCH, kwire.OFFSET_COMMIT):
+                    res.violate("C13", "C13:request-written-after-stop:%s" % kwire.API_NAMES.get(key), "%s request written at %.6f, stop() returned at %.6f" % (
+                        kwire.API_NAMES.get(key), t, t_stop))
+                    break
 
 
 def _check_c03(w, res, inc, cc, part):
@@ -1310,6 +1371,12 @@ def _check_c14(w, plan, res, inc, cc, fetches_by_pid):
             if s is not None and not (s["start_w"].fires and not s["start_w"].ok and isinstance(s["start_w"].value, ConsumerFetchSizeTooSmall)) and not s["stopped"]:
                 res.violate("C14", "C14:no-failure-at-maximum-buffer", "message does not fit the maximum buffer %d but the start Deferred did not fail" % mxb)
             res.probe("buffer_at_maximum")
+            continue
+        if s is not None and s["start_w"].fires and not s["start_w"].ok and isinstance(s["start_w"].value, ConsumerFetchSizeTooSmall) and \
+                (nxt is None or nxt.get("session") is not s):
+            # gave up although the buffer could still grow (no limit, or the limit not reached yet)
+            res.violate("C14", "C14:failed-before-the-buffer-reached-its-maximum", "start Deferred failed with ConsumerFetchSizeTooSmall after a fetch of %d bytes; maximum %r" % (b, mxb))
+            res.violate("C12", "C12:buffer-not-enlarged-for-a-truncated-message", "fetch of %d bytes held no complete message; the consumer failed instead of asking for %d" % (b, want))
             continue
         if nxt is None or nxt.get("session") is not s:
             continue
